@@ -304,6 +304,73 @@ func runC05(b *mon.B) {
 
 	// ---- truncated and stalled streams
 	srv.Net.SetKeepLog(true)
+	// the peer pauses inside a packet for LONGER than the read deadline, then sends the rest: the
+	// stream stalled in the middle of a packet, that is an error - the connection is closed at the
+	// deadline, the rest is never read, nothing but the packets completed before the pause is
+	// delivered
+	for k := 0; k < b.N(20, 400); k++ {
+		caseNo++
+		pk := c05Stream(r, false)
+		if len(pk) > 3 {
+			pk = pk[:3]
+		}
+		pauseIn := r.Intn(len(pk))
+		if len(pk[pauseIn].Clear) < 40 {
+			pk[pauseIn].Clear = c05Body(r, pk[pauseIn].H.Type, 40+r.Intn(200), false)
+		}
+		pause := []time.Duration{16 * time.Second, 20 * time.Second, 45 * time.Second}[k%3]
+		if !b.Want(caseNo) {
+			continue
+		}
+		b.Eval(1)
+		b.Class("server/pause-beyond-deadline-inside-packet/%v", pause)
+		c := srv.L.Dial(simnet.RemoteFor(caseNo))
+		before := srv.Tap.Count()
+		t0 := srv.Net.Now()
+		for i, p := range pk {
+			w := p.wire(secret)
+			if i == pauseIn {
+				cut := 1 + r.Intn(len(w)-1)
+				c.Feed(w[:cut])
+				c.FeedAfter(pause, w[cut:])
+			} else {
+				c.Feed(w)
+			}
+		}
+		c.EOF()
+		if err := c.WaitClosed(); err != nil {
+			b.Inconclusive("case %d: %v", caseNo, err)
+			continue
+		}
+		invs := srv.Tap.Since(before)
+		handler.take()
+		okAll := len(invs) == pauseIn
+		for i := 0; okAll && i < pauseIn; i++ {
+			okAll = invs[i].Session == pk[i].H.Session && invs[i].Seq == pk[i].H.Seq && bytes.Equal(invs[i].Body, pk[i].Clear)
+		}
+		readsAfterTimeout, timedOut := 0, false
+		for _, e := range srv.Net.EventsSince(t0) {
+			if e.Conn != c.ID {
+				continue
+			}
+			switch e.Kind {
+			case simnet.KReadTimeout:
+				timedOut = true
+			case simnet.KReadEnter:
+				if timedOut {
+					readsAfterTimeout++
+				}
+			}
+		}
+		w := map[string]interface{}{"pause": pause.String(), "packets": len(pk), "paused_in_packet": pauseIn + 1, "delivered": len(invs), "reads_after_the_timeout": readsAfterTimeout}
+		if !okAll {
+			b.Violate(caseNo, "C05/server/pause-beyond-deadline/delivered-differs", fmt.Sprintf("the peer paused %v (beyond the read deadline) inside packet %d of %d: %d packets reached the handler, the %d completed before the pause were expected", pause, pauseIn+1, len(pk), len(invs), pauseIn), w)
+		} else if readsAfterTimeout > 0 {
+			b.Violate(caseNo, "C05/server/pause-beyond-deadline/reading-resumed-inside-the-packet", fmt.Sprintf("the peer paused %v inside packet %d: after the read deadline expired the server issued %d more reads on the connection, i.e. went on parsing from the middle of a packet", pause, pauseIn+1, readsAfterTimeout), w)
+		} else {
+			b.Count("pauses_beyond_deadline_closed_cleanly", 1)
+		}
+	}
 	for k := 0; k < b.N(60, 1200); k++ {
 		caseNo++
 		pk := c05Stream(r, false)
